@@ -38,6 +38,11 @@ func checkC10(P *Prog, r *Result) {
 	// an issue object appears once in the map: an issue released to the pool twice is handed to two later
 	// failures, and the map then holds one object under two keys, with the Path of only one of them (C07's rule)
 	shareRule(P, r, checkC07, "C07/release-multiplicity", nil, "C10/issue-object-unique", 1)
+	// the path of an issue is the path of its own node: the pooled PathBuilder an execution pushes its segments on
+	// belongs to that execution alone (released once: C07's release rule) and starts from the empty root (C07's
+	// re-initialisation rule), else segments of another execution show up in the keys
+	shareRule(P, r, checkC07, "C07/release", func(o Obligation) bool { return strings.Contains(o.Construct, "PathBuilder") }, "C10/path-builder-own", 2)
+	shareRule(P, r, checkC07, "C07/reinit", func(o Obligation) bool { return strings.Contains(o.Construct, "PathBuilder") }, "C10/path-builder-clean", 1)
 	_ = R
 }
 
